@@ -451,6 +451,7 @@ def merge_common(ctx):
 # ---------------------------------------------------------------- Map: nested value follows the entry clock
 
 @rule('MAP-RESET-PAIR', {
+    'C20': 'nested data one side removed must not come back from the other side\'s stale entry (no residue of removed data)',
     'C05': 'when an entry survives with a reduced clock, what the other side removed under that key must be reset in the nested value',
     'C03': 'op delivery of the key remove would have reset the nested value',
 }, floor=3)
@@ -478,6 +479,7 @@ def map_reset_pair(ctx):
                   'our-only entry kept with a reduced clock but its nested value is not reset by what other has seen', line=cb.line)
     # theirs-only and both-present (main body)
     seen_t = seen_b = merged = False
+    both_msg = None
     lt = lb = body.line
     for bb, c2 in sorted(it.calls.items()):
         n = call_name(c2.term)
@@ -491,10 +493,22 @@ def map_reset_pair(ctx):
                 if leaf_param(1, (r['clock'],))[1] in leaves:
                     seen_t, lt = True, c2.line
             if pp and pp[0] == 1 and pp[1] == (r['entries'],):
-                has_t = any(_entry_clock_match(l, r, ('clock',), 2) for l in leaves)
-                has_o = any(_entry_clock_match(l, r, ('clock',), 1) for l in leaves)
-                if has_t and has_o:
-                    seen_b, lb = True, c2.line
+                # deleted dots = (dots known to either side for this key) − (surviving witness): the minuend must
+                # draw on BOTH sides (entry clocks or replica clocks), otherwise resets observed by one side are lost
+                e = cexpr(c2.args[1].val)
+                minuend = cleaves(e[1]) if e[0] == 'minus' else leaves
+                def side_of(l):
+                    if _entry_clock_match(l, r, ('clock',), 2) or is_field_of_param(l, 2, (r['clock'],)):
+                        return 2
+                    if _entry_clock_match(l, r, ('clock',), 1) or is_field_of_param(l, 1, (r['clock'],)):
+                        return 1
+                    return None
+                sides = set(side_of(l) for l in minuend) - {None}
+                lb = c2.line
+                if sides == {1, 2}:
+                    seen_b = True
+                else:
+                    both_msg = 'the dots deleted from an entry present on both sides are computed from %s only (side %s): what the other side had under this key and we removed is not reset' % (fmt_c(e[1]) if e[0] == 'minus' else fmt_c(e), sorted(sides))
         if n == 'merge' and len(c2.args) == 2 and (cinfo(c2.cid)['trait'] or '').endswith('CvRDT'):
             e0, e1 = elem_value_of(c2.args[0].val), elem_value_of(c2.args[1].val)
             if e0 and e1 and tuple(e0[3]) == ('val',) and tuple(e1[3]) == ('val',):
@@ -503,4 +517,4 @@ def map_reset_pair(ctx):
     ctx.check(seen_t, 'merge/theirs-only', body, 'adopted nested value reset with a clock derived from the pre-merge self.clock',
               'their-only entry adopted with a reduced clock but its nested value is not reset by what we have seen and removed', line=lt)
     ctx.check(seen_b and merged, 'merge/both', body, 'nested values merged, then reset by the dots that left the entry clock',
-              'entry on both sides: nested values are not merged and reset by the deleted dots (merged=%s, reset=%s)' % (merged, seen_b), line=lb)
+              both_msg or 'entry on both sides: nested values are not merged and reset by the deleted dots (merged=%s, reset=%s)' % (merged, seen_b), line=lb)
